@@ -194,6 +194,12 @@ func (tr TranslationConfig) translatePackage(pkg *packages.Package) (coq.File, e
 			"could not load package %v:\n%v", pkg.PkgPath,
 			pkgErrors(pkg.Errors))
 	}
+	if ffis := ffisUsed(pkg); len(ffis) > 1 {
+		// refuse the package with an error (NewPkgCtx would panic)
+		return coq.File{}, errors.Errorf(
+			"could not translate package %v: multiple ffis used %v",
+			pkg.PkgPath, ffis)
+	}
 	ctx := NewPkgCtx(pkg, tr)
 	files := sortedFiles(pkg.CompiledGoFiles, pkg.Syntax)
 
